@@ -13,30 +13,37 @@ import (
 // C11, C12.
 
 var (
-	pB0   = u.F("pB0", "", "B")                 // B without dependencies
-	pBaa  = u.F("pBaa", "{A;A@n}", "B")         // the same type twice, unnamed then named
-	pBaa2 = u.F("pBaa2", "{{A@n};A}", "B")      // named (nested) then unnamed
-	pAg   = u.F("pAg", "", "{A;A+g}")           // one constructor, direct value and group member
-	pBe   = u.F("pBe", "A", "B,error")          // may fail by error
-	pAe   = u.F("pAe", "", "A,error")           // may fail by error
-	pDd   = u.F("pDd", "", "D")                 // bystander
-	dABa  = u.F("dABa", "A,B", "A")             // decorator of A that needs B (B's constructor needs A)
-	iGA   = u.F("iGA", "{A;A*g}", "")           // same constructor through two paths
-	pBo   = u.F("pBo", "{A?}", "B")             // optional edge
-	pBno  = u.F("pBno", "{{A?}}", "B")          // optional edge in a nested object
-	pBn2  = u.F("pBn2", "{A@n?}", "B")          // named optional edge
-	pAn   = u.F("pAn", "", "A", u.Name("n"))    // named A
-	pCb   = u.F("pCb", "B", "C")                // required
-	pCob  = u.F("pCob", "{B?}", "C")            // optional
-	pCgb  = u.F("pCgb", "{B*g}", "C")           // through a group
-	fBgA  = u.F("fBgA", "A", "B", u.Group("g")) // group member B needing A
-	iCo   = u.F("iCo", "{C?}", "")
-	iBo   = u.F("iBo", "{B?}", "")
-	iAo   = u.F("iAo", "{A?}", "")
-	iNest = u.F("iNest", "{{B?};A?}", "")
-	pBnr  = u.F("pBnr", "{{A}}", "B")               // required edge in a nested object
-	pBne  = u.F("pBne", "", "B,error", u.Name("n")) // named value whose constructor may fail
-	iBnO  = u.F("iBnO", "{B@n?}", "")
+	pB0     = u.F("pB0", "", "B")                      // B without dependencies
+	kAacw   = u.F("kAacw", "", "A", u.As("IA", "IAB")) // A under IA and IAB
+	kAccw   = u.F("kAccw", "", "A", u.As("IC", "IAB")) // A under IC and IAB
+	qC      = u.F("qC", "IC", "")
+	kAnAsII = u.F("kAnAsII", "", "A", u.Name("n"), u.As("IA", "IAB")) // A@n under IA and IAB
+	pCiin   = u.F("pCiin", "{IAB@n}", "C")
+	qIIn    = u.F("qIIn", "{IAB@n}", "")
+	qIIno   = u.F("qIIno", "{IAB@n?}", "")
+	pBaa    = u.F("pBaa", "{A;A@n}", "B")         // the same type twice, unnamed then named
+	pBaa2   = u.F("pBaa2", "{{A@n};A}", "B")      // named (nested) then unnamed
+	pAg     = u.F("pAg", "", "{A;A+g}")           // one constructor, direct value and group member
+	pBe     = u.F("pBe", "A", "B,error")          // may fail by error
+	pAe     = u.F("pAe", "", "A,error")           // may fail by error
+	pDd     = u.F("pDd", "", "D")                 // bystander
+	dABa    = u.F("dABa", "A,B", "A")             // decorator of A that needs B (B's constructor needs A)
+	iGA     = u.F("iGA", "{A;A*g}", "")           // same constructor through two paths
+	pBo     = u.F("pBo", "{A?}", "B")             // optional edge
+	pBno    = u.F("pBno", "{{A?}}", "B")          // optional edge in a nested object
+	pBn2    = u.F("pBn2", "{A@n?}", "B")          // named optional edge
+	pAn     = u.F("pAn", "", "A", u.Name("n"))    // named A
+	pCb     = u.F("pCb", "B", "C")                // required
+	pCob    = u.F("pCob", "{B?}", "C")            // optional
+	pCgb    = u.F("pCgb", "{B*g}", "C")           // through a group
+	fBgA    = u.F("fBgA", "A", "B", u.Group("g")) // group member B needing A
+	iCo     = u.F("iCo", "{C?}", "")
+	iBo     = u.F("iBo", "{B?}", "")
+	iAo     = u.F("iAo", "{A?}", "")
+	iNest   = u.F("iNest", "{{B?};A?}", "")
+	pBnr    = u.F("pBnr", "{{A}}", "B")               // required edge in a nested object
+	pBne    = u.F("pBne", "", "B,error", u.Name("n")) // named value whose constructor may fail
+	iBnO    = u.F("iBnO", "{B@n?}", "")
 
 	fG1   = u.F("fG1", "", "A", u.Group("g"))
 	fG1b  = u.F("fG1b", "", "A", u.Group("g"))
@@ -114,7 +121,14 @@ func mkUnits(monitors []explore.Monitor) (add func(name string, cfg h.Config, pl
 // ---------------------------------------------------------------- C02
 
 func c02Units(tier string) []Unit {
-	add, get := mkUnits([]explore.Monitor{singletonMonitor("C02"), stabilityMonitor("C02"), resolutionMonitor("C02")})
+	add0, get := mkUnits([]explore.Monitor{singletonMonitor("C02"), stabilityMonitor("C02"), resolutionMonitor("C02")})
+	// the stability rule depends on what earlier Invokes delivered: that part of
+	// the history joins the dedup key
+	add := func(name string, cfg h.Config, plans map[string][]u.Beh, prefix []Op, a alpha, depth int, b explore.Budget) {
+		add0(name, cfg, plans, prefix, a, depth, b)
+		us := get()
+		us[len(us)-1].Sc.KeyExtra = stabilityState
+	}
 	q := quick(tier)
 	d := 7
 	inv := 3
@@ -142,6 +156,11 @@ func c02Units(tier string) []Unit {
 				decos: []*uFunc{dA}, invokes: []*uFunc{iA, iB, iC}}, d, explore.Budget{Provides: 3, Decorates: 1, Invokes: inv, Rejected: 0})
 		}
 	}
+	// two constructors whose As lists overlap on a key that is not the first of
+	// the second list (the second must be rejected; if it is not, the shared
+	// key changes instance as the constructors are built one after the other)
+	add("as-overlaps", h.Config{}, nil, prefixFork, alpha{scopes: []int{0, 1, 2}, ctors: []*uFunc{kAacw, kAccw}, export: true,
+		invokes: []*uFunc{qI, qII, qC}}, 6, explore.Budget{Provides: 2, Invokes: 4, Rejected: 1})
 	// a child created after its parent built a key, then shadowing that key with
 	// a constructor that has a second result: one instance per (scope, key)
 	add("late-scope-shadowing", h.Config{}, nil, nil, alpha{scopes: []int{0, 1}, ctors: []*uFunc{pA, pABo}, invokes: []*uFunc{iA, iB}, scopeOps: []int{0}},
@@ -192,6 +211,12 @@ func c03Units(tier string) []Unit {
 			decos: []*uFunc{dG}, invokes: []*uFunc{iGs, iG, iB, iC, iS1}, visualize: true}, d, b)
 		add("optional-providers"+tag, cfg, nil, prefixChild, alpha{scopes: []int{0, 1}, ctors: []*uFunc{pA, pBo, pCob, pCb, pDd},
 			invokes: []*uFunc{iCo, iC, iBo}}, d, b)
+		// a constructor that failed once and is retried after a nearer provider
+		// of its dependency appeared: only the nearest one runs
+		if !def {
+			add("retry-after-shadowing", cfg, map[string][]u.Beh{"pBe": {u.BehErr, u.BehOK}}, prefixChild, alpha{scopes: []int{0, 1}, ctors: []*uFunc{pA, pA2, pBe},
+				invokes: []*uFunc{iB}}, 5, explore.Budget{Provides: 3, Invokes: 2, Rejected: 0})
+		}
 		// group members registered under several interfaces (As): reaching the
 		// group through any one of them runs the feeder
 		add("group-as"+tag, cfg, nil, prefixChild, alpha{scopes: []int{0, 1}, ctors: []*uFunc{fAsII, fAs, fG1}, export: true,
@@ -261,6 +286,10 @@ func c04Units(tier string) []Unit {
 		// below optional edges (§3.6-3: definite where dig's behaviour is)
 		add("decorated-unprovided"+tag, cfg, nil, prefixChild, alpha{scopes: scopes2, ctors: []*uFunc{pA, pB, pCob},
 			decos: []*uFunc{dA, dA0}, invokes: []*uFunc{iA, iAo, iB, iBo, iCo}}, d, explore.Budget{Provides: 2, Decorates: 2, Invokes: 2, Rejected: 0})
+		// a named value under two As interfaces, consumed by name (required,
+		// optional, below a constructor) and — wrongly — without the name
+		add("named-as"+tag, cfg, nil, prefixChild, alpha{scopes: scopes2, ctors: []*uFunc{kAnAsII, pCiin}, export: !q,
+			invokes: []*uFunc{qIn, qIIn, qIIno, qII, iC}}, 4, explore.Budget{Provides: 2, Invokes: 2, Rejected: 0})
 		// one constructor asking for the same type twice under different names
 		add("same-type-two-names"+tag, cfg, nil, prefixChild, alpha{scopes: scopes2, ctors: []*uFunc{pA, pAn, pBaa, pBaa2},
 			invokes: []*uFunc{iBo, iB}}, d, b)
@@ -459,6 +488,8 @@ func c11Units(tier string) []Unit {
 	// group is what its own scope sees
 	add("soft-param-of-exported-feeder", h.Config{}, nil, prefixFork, alpha{scopes: []int{0, 1, 2}, ctors: []*uFunc{pXsh, pMB}, export: true,
 		invokes: []*uFunc{iB, iGH, iC}}, 5, explore.Budget{Provides: 2, Invokes: 3, Rejected: 0})
+	add("three-levels", h.Config{}, nil, prefixChain, alpha{scopes: []int{0, 1, 2}, ctors: []*uFunc{pMB, fG1},
+		invokes: []*uFunc{iGs, iG, iB}}, 5, explore.Budget{Provides: 3, Invokes: 2, Rejected: 0})
 	add("members-after-a-mid-list-error", h.Config{}, nil, prefixChild, alpha{scopes: []int{0, 1}, ctors: []*uFunc{pMBem, fG1},
 		invokes: []*uFunc{iS1, iS2, iB, iGs, iG}}, 5, explore.Budget{Provides: 2, Invokes: 3, Rejected: 0})
 	add("two-groups-scoped", h.Config{}, nil, prefixChild, alpha{scopes: []int{0, 1}, ctors: []*uFunc{pMB, pMC, fH}, export: true,
